@@ -10,9 +10,9 @@ What is fake: the rpc channels (Mock with `close` / `other.get_engine_id_async`,
 
 API (everything a check needs; keep it small):
 
+    # use inside a running event loop (the handlers call asyncio.create_task), e.g. asyncio.run(shard_main())
     rig = AggregatorRig()                     # scratch dir + db file + first aggregator "process"
     try:
-        async with-less usage, inside a running event loop (handlers call asyncio.create_task):
         eid = await rig.register(reg_msg("pc", "uod"))        # real register handler; returns engine_id | None
         await rig.connect(eid)                                  # dispatcher._on_delayed_client_connect(mock channel)
         await rig.send(uod_info_msg(eid, ["T1"], 0.5))          # dispatcher.dispatch_message(msg) -> reply message
